@@ -26,6 +26,7 @@ import (
 
 type vlUx struct {
 	ID    string `json:"id"`
+	Addr  string `json:"addr"`
 	Coins []int  `json:"coins"`
 	Hours []int  `json:"hours"`
 	Time  uint64 `json:"time"`
@@ -45,6 +46,7 @@ type vlState struct {
 
 type vlOut struct {
 	ID    string `json:"id"`
+	Addr  string `json:"addr"`
 	Coins []int  `json:"coins"`
 	Hours []int  `json:"hours"`
 }
@@ -145,7 +147,7 @@ func (n *vlNode) state(t *testing.T) vlState {
 		}
 		s.Unspent = []vlUx{}
 		for _, ux := range uxs {
-			s.Unspent = append(s.Unspent, vlUx{ID: ux.Hash().Hex(), Coins: vlLimbs(ux.Body.Coins), Hours: vlLimbs(ux.Body.Hours), Time: ux.Head.Time})
+			s.Unspent = append(s.Unspent, vlUx{ID: ux.Hash().Hex(), Addr: ux.Body.Address.String(), Coins: vlLimbs(ux.Body.Coins), Hours: vlLimbs(ux.Body.Hours), Time: ux.Head.Time})
 		}
 		sort.Slice(s.Unspent, func(i, j int) bool { return s.Unspent[i].ID < s.Unspent[j].ID })
 		hs, err := n.v.unconfirmed.AllRawTransactions(tx)
@@ -176,7 +178,7 @@ func vlDescribe(sb coin.SignedBlock, head coin.BlockHeader, sigOK, bodyOK bool, 
 		}
 		// output ids as the node derives them (from the block they are created in)
 		for _, ux := range coin.CreateUnspents(sb.Head, txn) {
-			vt.Outs = append(vt.Outs, vlOut{ID: ux.Hash().Hex(), Coins: vlLimbs(ux.Body.Coins), Hours: vlLimbs(ux.Body.Hours)})
+			vt.Outs = append(vt.Outs, vlOut{ID: ux.Hash().Hex(), Addr: ux.Body.Address.String(), Coins: vlLimbs(ux.Body.Coins), Hours: vlLimbs(ux.Body.Hours)})
 		}
 		b.Txns = append(b.Txns, vt)
 	}
@@ -287,7 +289,9 @@ func vlHistory(t *testing.T, enc *json.Encoder, hist int, rng *rand.Rand, nblock
 		headTime := headP.Head.Time
 
 		// build 1..2 valid transactions over disjoint inputs
-		mkTxn := func(ins []coin.UxOut, coinsDelta int64, hoursOver bool, zeroOut bool) coin.Transaction {
+		// hoursMode: 0 half of the input hours, 1 more than the inputs have (+1..5), 2 exactly the input hours (zero fee: valid in a
+		// block), 3 input hours + 1, 4 two outputs whose hours sum wraps around 2^64 to half the input hours (F16)
+		mkTxnH := func(ins []coin.UxOut, coinsDelta int64, hoursMode int, zeroOut bool, at uint64) coin.Transaction {
 			var txn coin.Transaction
 			var coins, hours uint64
 			var keys []cipher.SecKey
@@ -296,9 +300,9 @@ func vlHistory(t *testing.T, enc *json.Encoder, hist int, rng *rand.Rand, nblock
 					t.Fatal(err)
 				}
 				coins += ux.Body.Coins
-				hh, err := ux.CoinHours(headTime)
+				hh, err := ux.CoinHours(at)
 				if err != nil {
-					t.Fatal(err)
+					hh = 0
 				}
 				hours += hh
 				keys = append(keys, keyOf[ux.Body.Address])
@@ -308,8 +312,17 @@ func vlHistory(t *testing.T, enc *json.Encoder, hist int, rng *rand.Rand, nblock
 				nout = 1
 			}
 			spendHours := hours / 2
-			if hoursOver {
+			switch hoursMode {
+			case 1:
 				spendHours = hours + 1 + uint64(rng.Intn(5))
+			case 2:
+				spendHours = hours
+			case 3:
+				spendHours = hours + 1
+			case 4:
+				if coins >= 4e6 {
+					nout = 2
+				}
 			}
 			rem, remH := uint64(int64(coins)+coinsDelta), spendHours
 			for k := 0; k < nout; k++ {
@@ -326,6 +339,11 @@ func vlHistory(t *testing.T, enc *json.Encoder, hist int, rng *rand.Rand, nblock
 				rem -= c
 				remH -= hh
 			}
+			if hoursMode == 4 && len(txn.Out) == 2 {
+				e := uint64(1 + rng.Intn(4))
+				txn.Out[0].Hours = ^uint64(0) - e
+				txn.Out[1].Hours = e + 1 + hours/2 // exact sum = 2^64 + hours/2
+			}
 			if zeroOut && nout == 1 {
 				txn.Out = append(txn.Out, coin.TransactionOutput{Address: owners[0].addr, Coins: 0, Hours: 0})
 			}
@@ -334,6 +352,13 @@ func vlHistory(t *testing.T, enc *json.Encoder, hist int, rng *rand.Rand, nblock
 				t.Fatal(err)
 			}
 			return txn
+		}
+		mkTxn := func(ins []coin.UxOut, coinsDelta int64, hoursOver bool, zeroOut bool) coin.Transaction {
+			m := 0
+			if hoursOver {
+				m = 1
+			}
+			return mkTxnH(ins, coinsDelta, m, zeroOut, headTime)
 		}
 		pick := func(avail []coin.UxOut) ([]coin.UxOut, []coin.UxOut) {
 			k := 1
@@ -381,9 +406,13 @@ func vlHistory(t *testing.T, enc *json.Encoder, hist int, rng *rand.Rand, nblock
 			return b
 		}
 		muts := []string{"badsig", "seq+1", "seq-1", "time-eq", "time-before", "prevhash", "bodyhash", "uxhash", "double-spend-in-block",
-			"replayed-spend", "coins-created", "coins-destroyed", "hours-created", "zero-coin-output", "txn-badsig", "repeat-head", "second-genesis", "empty-block", "unknown-input", "dup-input"}
+			"replayed-spend", "coins-created", "coins-destroyed", "hours-created", "zero-coin-output", "txn-badsig", "repeat-head", "second-genesis", "empty-block", "unknown-input", "dup-input", "hours-plus-one", "hours-plus-one", "hours-wrap"}
 		rng.Shuffle(len(muts), func(i, j int) { muts[i], muts[j] = muts[j], muts[i] })
-		for _, mut := range muts[:3+rng.Intn(4)] {
+		sel := muts[:3+rng.Intn(4)]
+		if bi == nblocks-1 && hist%2 == 0 {
+			sel = append(sel, "hours-wrap") // every run exercises the known finding F16 and the legacy rule behind it
+		}
+		for _, mut := range sel {
 			if diverged {
 				break
 			}
@@ -424,6 +453,15 @@ func vlHistory(t *testing.T, enc *json.Encoder, hist int, rng *rand.Rand, nblock
 				b = rebuild(coin.Transactions{mkTxn(ins1, -int64(1e6), false, false)})
 			case "hours-created":
 				b = rebuild(coin.Transactions{mkTxn(ins1, 0, true, false)})
+			case "hours-plus-one":
+				b = rebuild(coin.Transactions{mkTxnH(ins1, 0, 3, false, headTime)})
+			case "hours-wrap":
+				tw := mkTxnH(ins1, 0, 4, false, headTime)
+				if len(tw.Out) != 2 {
+					skip = true
+					break
+				}
+				b = rebuild(coin.Transactions{tw})
 			case "zero-coin-output":
 				b = rebuild(coin.Transactions{mkTxn(ins1, 0, false, true)})
 			case "txn-badsig":
@@ -467,17 +505,37 @@ func vlHistory(t *testing.T, enc *json.Encoder, hist int, rng *rand.Rand, nblock
 				txn := mkTxn(append(append([]coin.UxOut{}, ins1...), ins1[0]), 0, false, false)
 				b = rebuild(coin.Transactions{txn})
 			}
+			if mut == "hours-wrap" && bi < nblocks-2 {
+				skip = true // accepted by the real node (F16), which ends the history: only near its end
+			}
 			if skip {
 				continue
 			}
 			if offer(mut, sign(b, k), sigOK, bodyOK, badSig) {
 				diverged = true // the follower took a block the publisher never made: the history ends here
+				if mut == "hours-wrap" {
+					// the follower now holds an output with almost 2^64 hours: exercise the documented legacy rule
+					// (an input whose accrued hours overflow in the final addition counts as zero) on it alone
+					vlLegacy(t, F, b, sec, keyOf, owners[1].addr, offer)
+				}
 			}
 		}
 		if diverged {
 			break
 		}
-		if !offer("valid", valid, true, true, nil) {
+		if rng.Intn(4) == 0 {
+			// a block that burns nothing (output hours = accrued input hours exactly) is valid for every node,
+			// although the publisher's own block creation would not choose it: built and signed by hand
+			hb, err := coin.NewBlock(headP.Block, now, blk.Head.UxHash, coin.Transactions{mkTxnH(ins1, 0, 2, false, headTime)}, vlZeroFee)
+			if err != nil {
+				t.Fatal(err)
+			}
+			blk, ins2 = *hb, nil
+			valid = sign(blk, sec)
+			if !offer("valid-zero-fee", valid, true, true, nil) {
+				break
+			}
+		} else if !offer("valid", valid, true, true, nil) {
 			break // the verdict on this edge is TLC's; the history cannot continue
 		}
 		if err := P.v.ExecuteSignedBlock(valid); err != nil {
@@ -488,4 +546,60 @@ func vlHistory(t *testing.T, enc *json.Encoder, hist int, rng *rand.Rand, nblock
 		v := valid
 		prevValid = &v
 	}
+}
+
+func vlZeroFee(*coin.Transaction) (uint64, error) { return 0, nil }
+
+// vlLegacy continues a history on the follower alone after it accepted the block `wb` whose single transaction
+// created an output with 2^64-1-e hours (finding F16).  Block L1 only moves the head time forward (it spends the
+// sibling output); then the huge output, whose accrued hours now overflow in the final addition, is spent:
+// with output hours 1 (must be rejected: the input counts as zero) and with output hours 0 (valid).
+func vlLegacy(t *testing.T, F *vlNode, wb coin.Block, sec cipher.SecKey, keyOf map[cipher.Address]cipher.SecKey, dst cipher.Address,
+	offer func(string, coin.SignedBlock, bool, bool, map[int]bool) bool) {
+	txn := wb.Body.Transactions[0]
+	uxs := coin.CreateUnspents(wb.Head, txn)
+	if len(uxs) != 2 {
+		return
+	}
+	big, sib := uxs[0], uxs[1]
+	hand := func(txns coin.Transactions, when uint64) coin.SignedBlock {
+		var head *coin.SignedBlock
+		var uxh cipher.SHA256
+		if err := F.db.View("verif legacy", func(tx *dbutil.Tx) error {
+			var err error
+			if head, err = F.v.blockchain.Head(tx); err != nil {
+				return err
+			}
+			uxh, err = F.v.blockchain.Unspent().GetUxHash(tx)
+			return err
+		}); err != nil {
+			t.Fatal(err)
+		}
+		b, err := coin.NewBlock(head.Block, when, uxh, txns, vlZeroFee)
+		if err != nil {
+			t.Fatal(err)
+		}
+		return coin.SignedBlock{Block: *b, Sig: cipher.MustSignHash(b.HashHeader(), sec)}
+	}
+	spend := func(ux coin.UxOut, hours uint64) coin.Transaction {
+		var tx coin.Transaction
+		if err := tx.PushInput(ux.Hash()); err != nil {
+			t.Fatal(err)
+		}
+		tx.Out = append(tx.Out, coin.TransactionOutput{Address: dst, Coins: ux.Body.Coins, Hours: hours})
+		tx.SignInputs([]cipher.SecKey{keyOf[ux.Body.Address]})
+		if err := tx.UpdateHeader(); err != nil {
+			t.Fatal(err)
+		}
+		return tx
+	}
+	t1 := wb.Head.Time + 20*3600
+	if !offer("legacy-advance", hand(coin.Transactions{spend(sib, 0)}, t1), true, true, nil) {
+		return
+	}
+	// at head time t1 the huge output has earned >= 20 hours: 2^64-1-e + 20 does not fit
+	if offer("legacy-overflow-input-hours-1", hand(coin.Transactions{spend(big, 1)}, t1+3600), true, true, nil) {
+		return
+	}
+	offer("legacy-overflow-input-hours-0", hand(coin.Transactions{spend(big, 0)}, t1+3600), true, true, nil)
 }
